@@ -29,7 +29,8 @@ MainStages == {SSeq[i] : i \in DOMAIN SSeq}
 LapseStages == {"relayed", "reportedpad", "split", "newval"}
 \*   a validator with more than a quarter of the stake / the last active validator whose pigeon never runs: 120 blocks of jail sweeps
 SilentWorlds == {"big", "solo"}
-CSeq == <<"negative", "zero", "one", "huge63", "huge64", "huge255", "empty", "overlong", "malformed">>
+CSeq == <<"negative", "zero", "one", "huge63", "huge64", "huge255", "empty", "overlong", "malformed",
+          "failed", "nologs", "notopics", "foreignfirst", "manylogs", "baddata", "manytopics">>
 CIdx(c) == CHOOSE j \in DOMAIN CSeq : CSeq[j] = c
 Focus == {"UpsertRelayerFee", "AddMessageEstimates", "AddMessageEstimates/all", "AddEvidence", "AddEvidence/all", "AddEvidenceTx/all", "AddEvidenceBalances/all",
           "SetErrorData", "SetPublicAccessData", "EstimateBatchGas", "EstimateBatchGas/all", "ConfirmBatch", "SendToPalomaClaim/all",
